@@ -79,7 +79,7 @@ func (s *MySQLReplicateStore) Get(ctx context.Context, key string, withPrefix bo
 	var sqlStr string
 	var sqlArgs []any
 	if withPrefix {
-		sqlStr = fmt.Sprintf("SELECT task_msg_value FROM task_msg WHERE task_msg_key LIKE '%s%%'", taskMsgKey)
+		sqlStr = fmt.Sprintf("SELECT task_msg_value FROM task_msg WHERE task_msg_key LIKE '%s/%%'", taskMsgKey)
 	} else {
 		sqlStr = "SELECT task_msg_value FROM task_msg WHERE task_msg_key = ?"
 		sqlArgs = append(sqlArgs, taskMsgKey)
